@@ -183,11 +183,8 @@ func (u *ufac) group(parent map[string]any, kidsKey string, depth int, forceB bo
 			}
 			taken := append([]any{}, nk[cut:]...)
 			ok := true
-			for _, t := range taken {
-				if cstr(t.(map[string]any), "k") == "uses" {
-					ok = false
-				}
-			}
+			// a uses among the nodes the augment adds ("uses inside an augment inside a uses") is written in the
+			// using module whatever module the outer grouping comes from
 			// a refine must not point into what the augment is about to add
 			for _, rf := range refines {
 				rp := rf.(map[string]any)["path"].([]any)
